@@ -50,12 +50,28 @@ func runC13(c *core.Ctx) {
 	if _, err := os.Stat(bin); err != nil {
 		c.Set("race_pass", "build/vcheck-race not found: skipped")
 	} else {
+		for _, cold := range []string{"", "1,16", "2,16", "1,3", "2,3"} {
+			c13RacePass(c, bin, cold)
+		}
+	}
+	c.SetExhaustive(exhaustive)
+	c.Assume = []string{"Go atomics are sequentially consistent, so SC interleaving of synchronisation operations is the language semantics for race-free code", "a worker that polled the done flag three times without any other thread writing is treated as waiting (bounds the number of fruitless batches per execution)", "data races are looked for by a separate free-running -race pass (sampling)", "the overlay rewriter is mechanical and its output is compiled by the real compiler"}
+}
+
+// c13RacePass runs the free-running pass in build/vcheck-race; cold = "v,N": a fresh process whose first use of the
+// package is a Mine of version v with N workers.
+func c13RacePass(c *core.Ctx, bin, cold string) {
+	tag := "race"
+	if cold != "" {
+		tag = "race-cold-start"
+	}
+	{
 		tmp, _ := os.MkdirTemp("", "c13race")
 		defer os.RemoveAll(tmp)
 		ctx, cancel := context.WithTimeout(context.Background(), 10*time.Minute)
 		defer cancel()
 		cmd := exec.CommandContext(ctx, bin, "C13race", c.Tier)
-		cmd.Env = append(os.Environ(), "VERIF_DIR="+tmp, "GORACE=halt_on_error=1 exitcode=66", "VERIF_CHILD=1")
+		cmd.Env = append(os.Environ(), "VERIF_DIR="+tmp, "VERIF_C13_COLD="+cold, "GORACE=halt_on_error=1 exitcode=66", "VERIF_CHILD=1")
 		var out, errb bytes.Buffer
 		cmd.Stdout, cmd.Stderr = &out, &errb
 		err := cmd.Run()
@@ -77,23 +93,23 @@ func runC13(c *core.Ctx) {
 			if where == "in harness code only" {
 				c.Abort("race detector fired in harness code: %s", log)
 			} else {
-				c.Violate("C13/race/data-race", "the race detector reports a data race "+where+" in a free-running Mine", map[string]interface{}{"report": log}, "", nil)
+				c.Violate("C13/"+tag+"/data-race", "the race detector reports a data race "+where+" in a free-running Mine", map[string]interface{}{"report": log}, "", nil)
 			}
 		case m == nil:
 			if strings.Contains(errb.String(), "iota-crypto-demo/pkg/pow") {
-				c.Violate("C13/race/process-crash", "the free-running pass died inside pkg/pow: "+tail(errb.String(), 1500), nil, "", nil)
+				c.Violate("C13/"+tag+"/process-crash", "the free-running pass died inside pkg/pow: "+tail(errb.String(), 1500), nil, "", nil)
 			} else {
 				c.Set("race_pass", fmt.Sprintf("no result (exit %d): %s", code, tail(errb.String(), 400)))
 			}
 		default:
-			c.Set("race_pass_runs", m[1])
+			if cold == "" {
+				c.Set("race_pass_runs", m[1])
+			}
 			if m[2] != "0" {
-				c.Violate("C13/race/free-running", "free-running pass: "+strings.TrimSpace(m[3]), nil, "", nil)
+				c.Violate("C13/"+tag+"/free-running", "free-running pass: "+strings.TrimSpace(m[3]), nil, "", nil)
 			}
 		}
 	}
-	c.SetExhaustive(exhaustive)
-	c.Assume = []string{"Go atomics are sequentially consistent, so SC interleaving of synchronisation operations is the language semantics for race-free code", "a worker that polled the done flag three times without any other thread writing is treated as waiting (bounds the number of fruitless batches per execution)", "data races are looked for by a separate free-running -race pass (sampling)", "the overlay rewriter is mechanical and its output is compiled by the real compiler"}
 }
 
 // runC13Race runs inside the -race build without any scheduler: real goroutines, real sync.
@@ -111,7 +127,17 @@ func runC13Race(c *core.Ctx) {
 		zeros            int
 	}
 	var scs []sc
+	if cold := os.Getenv("VERIF_C13_COLD"); cold != "" {
+		// cold start: the first use of the package in this process is a multi-worker Mine
+		var v, n int
+		fmt.Sscanf(cold, "%d,%d", &v, &n)
+		scs = append(scs, sc{v, n, "never", 2}, sc{v, n, "never", 0})
+		reps = 3
+	}
 	for _, v := range []int{1, 2} {
+		if len(scs) > 0 {
+			break
+		}
 		for _, n := range []int{1, 2, 4, 16, 64} {
 			scs = append(scs, sc{v, n, "never", 2}, sc{v, n, "concurrent", 5}, sc{v, n, "before", 2}, sc{v, n, "concurrent-unattainable", 243}, sc{v, n, "deadline-unattainable", 243}, sc{v, n, "expired-deadline", 2},
 				sc{v, n, "never", 0}, sc{v, n, "far-deadline-cancelled-unattainable", 243}, sc{v, n, "far-deadline-never", 2})
